@@ -498,6 +498,13 @@ func (e *Env) applyCore(op *Op) []string {
 				return []string{"noimg"}
 			}
 			b := e.storeBytes()
+			if len(op.Raw) > 0 && op.Raw[0] == "fromend" {
+				// so many bytes are missing at the end (a copy that stopped early)
+				op.N, op.Raw = int64(len(b))-op.N, nil
+				if op.N < 0 {
+					op.N = 0
+				}
+			}
 			if op.N < int64(len(b)) {
 				b = b[:op.N]
 			}
